@@ -155,6 +155,10 @@ def in_child(fn, *args):
 
 def _exec_job(spec_mod, check, trace, keep_log, want_sample):
     import importlib
+    try:   # same address-space limit wherever a run executes
+        resource.setrlimit(resource.RLIMIT_AS, (3 * 1024 ** 3,) * 2)
+    except (ValueError, OSError):
+        pass
     mod = importlib.import_module(spec_mod)
     res = mod.execute(check, trace, keep_log)
     v = res.get('violation')
